@@ -5,12 +5,12 @@
 //! (`S4V.Lemmas.RegexE2E.rowPipeline`: slice, generated regex `search`, named groups → buffer → chrono model; the
 //! `<group>=<hex>` fields that `drv_time` uses instead of the regex are ignored there).
 //! Plus the fixed witness lines of `S4V.Props.RegexE2ESpec` (stamps longer than `range_regex.end`, Feb 30, hour 24,
-//! epoch rows, the rows' own test lines), so that the `none` replies and the findings F28 / F34 / F35 are replayed too.
+//! epoch rows, the rows' own test lines; zone out of range, Feb 29, second 60 of `RegexE2EShapeSpec`), so that the `none` replies and the findings F28 / F34 / F35 are replayed too.
 use crate::util::*;
 use std::io::Write;
 
 /// (row, line, fill year or "n", offset seconds)
-const WITNESSES: [(usize, &str, &str, i32); 21] = [
+const WITNESSES: [(usize, &str, &str, i32); 30] = [
     (90, "2023 September 30 20:01:05 +05:30 [ERROR] x", "n", 0),
     (91, "2023 September 30 20:01:05 +0530 [ERROR] x", "n", 0),
     (92, "2023 September 30 20:01:05 +05:30 [ERROR] x", "n", 0),
@@ -32,6 +32,16 @@ const WITNESSES: [(usize, &str, &str, i32); 21] = [
     (95, "[2019-03-01 16:56] [PACMAN] synchronizing package lists", "n", 19800),
     (0, "[2000/01/01 00:00:01.123] ../source3/smbd/oplock.c:1340(init_oplocks)", "n", 3600),
     (5, "[2020/03/05 12:17:59.631000, FOOOOOOOOOOOOOOOOOOOO] x", "n", 0),
+    // S4V.Props.RegexE2EShapeSpec: outside `calendarOK` (zone hours / minutes, Feb 29) and second 60 inside it
+    (71, "2000-01-01 00:00:02.123456789 +24:00 foo", "n", 0),
+    (71, "2000-01-01 00:00:02.123456789 +23:59 foo", "n", 0),
+    (71, "2000-01-01 00:00:02.123456789 +23:60 foo", "n", 0),
+    (71, "2000-01-01 00:00:02.123456789 -29:99 foo", "n", 0),
+    (71, "2001-02-29 00:00:00.123456789 -11:30 foo", "n", 0),
+    (71, "2000-02-29 00:00:00.123456789 -11:30 foo", "n", 0),
+    (71, "2000-01-01 00:00:60.123456789 -11:30 foo", "n", 0),
+    (79, "2023-02-28 12:60:00 x", "n", 0),
+    (71, "2000-01-01 00:00:02.1234567890123 -11:30 foo", "n", 0),
 ];
 
 pub fn replay_line(req: &str) -> String {
